@@ -238,41 +238,41 @@ CHECKS = {
 
 # What the waves of seeded changes added to each check after the text above was written (DESIGN.md section 16).
 ADDENDA = {
-    'C01': "Also: processors that report patched versions whose echo never comes (consistency bookkeeping must not change the schedule); DELETED events followed by further events of the same key (a uid-less object deleted and re-created within its creation second).",
+    'C01': "Also: processors that report patched versions whose echo never comes (consistency bookkeeping must not change the schedule); DELETED events followed by further events of the same key (a uid-less object deleted and re-created within its creation second). Objects first seen through the listing (a kind whose name ends in the letters of 'List', with/without uid); resumed watches across a digit rollover of the resource version.",
     'C02': "Also: sub-handlers nested two levels deep, resume cycles superseded by essential changes (a resume handler succeeds once per process), pure resume "
-           "cycles, ReplicaSets owned by Deployments, a resume handler with sub-handlers superseded in mid-cycle, and a final rule that no progress record is left behind for ever.",
+           "cycles, ReplicaSets owned by Deployments, a resume handler with sub-handlers superseded in mid-cycle, and a final rule that no progress record is left behind for ever. Several foreign writes before one PATCH (a handler on a view older than the operator's own PATCH counts as the carve-out only after the consistency timeout); parents that call kopf.execute() themselves.",
     'C03': "Also: resume handlers (one retrying / two under asap) in every history with a restart, and the idle-worker tie (the last change arrives in the "
-           "very instant the object's worker retires, all step orders); sub-handlers generated per item of a list in the spec while the list shrinks and grows between the steps.",
+           "very instant the object's worker retires, all step orders); sub-handlers generated per item of a list in the spec while the list shrinks and grows between the steps. Two deletion handlers / immediate retries with a rule that nothing is released before every deletion handler completed; a change taken back between retries (open finding).",
     'C04': "Also: stored-last-handled invariants in the write graph, look-alike annotation keys, a list universe for the diff laws, and the same in vivo: "
            "a closed loop (objects with a spec / empty essence, annotations and status storage, number<->boolean edits, field-narrowed handlers) where "
-           "handlers fire exactly once per essential edit and what they are GIVEN (old/new/diff) is exact and free of own writes.",
+           "handlers fire exactly once per essential edit and what they are GIVEN (old/new/diff) is exact and free of own writes. Field-restoring configurations (handlers on metadata.annotations / status) over default, status and both orders of multi storages in the own-writes graph and in the loop; another kind's narrowed handlers.",
     'C05': "Also: objects found unhandled by the initial listing, resume handlers only at first sight and never in a creation cycle, explicit "
-           "deleted=False, list-tail edits, and a final rule that no essential difference is taken for nothing.",
+           "deleted=False, list-tail edits, and a final rule that no essential difference is taken for nothing. Another kind's narrowed handlers in the same operator; ReplicaSets owned by Deployments.",
     'C06': "Also: kopf's finalizer between two foreign ones, histories where nothing happens after a version conflict, a label switched off and on again "
-           "around the release (group completing deviation bound 2), sibling daemons of which one exits on its own, backoff >= timeout.",
+           "around the release (group completing deviation bound 2), sibling daemons of which one exits on its own, backoff >= timeout. A label-filtered daemon that is slow to leave, relabelled before it has left, then deleted.",
     'C07': "Also: daemons/timers spawned in the instant of the matching event while the barrier is up, a raw-event handler that writes through its patch, "
-           "and a worker idle timeout shorter than the consistency timeout.",
+           "and a worker idle timeout shorter than the consistency timeout. Resource versions that gain a digit between the foreign write and the own patch; a raw-event handler whose patch follows foreign status edits.",
     'C08': "Also: the framework's own carry-over (processing.py) in the closed loop with label toggles and a user transformation (patch.fns) that is "
-           "undone later by somebody else, or whose delivering cycle fails as a whole (500) after the conflict; objects without a status stanza.",
+           "undone later by somebody else, or whose delivering cycle fails as a whole (500) after the conflict; objects without a status stanza. The status subresource as DISCOVERED by the whole operator for kinds whose plurals stand in a prefix relation.",
     'C09': "Also: two spawned handlers per object living and dying separately (asked to stop only with a reason), bounded exit of the operator, "
-           "backoff >= timeout; synchronous (threaded) daemons told to stop more than once.",
-    'C10': "Also: label-filter toggles during a slow run (no self-overlap), zero backoff.",
+           "backoff >= timeout; synchronous (threaded) daemons told to stop more than once. A second object-level reason to stop inside the backoff of the first.",
+    'C10': "Also: label-filter toggles during a slow run (no self-overlap), zero backoff. Schedules at the scale of days.",
     'C11': "Also: the limits of a parent whose sub-handler keeps failing, background handlers with a running sibling and later events, zero backoff, "
-           "downtimes that push the next attempt behind the timeout (fractional, seconds, more than a day), the same on a ReplicaSet owned by a Deployment.",
-    'C12': "Also: attempts that take time before they fail (the pause counts from the failure); a login handler that re-offers credentials invalidated earlier.",
+           "downtimes that push the next attempt behind the timeout (fractional, seconds, more than a day), the same on a ReplicaSet owned by a Deployment. A deletion handler taking over from a handler that waits for its retry.",
+    'C12': "Also: attempts that take time before they fail (the pause counts from the failure); a login handler that re-offers credentials invalidated earlier. Nothing is sent on a session after its 401 came back (issue times).",
     'C13': "Also: pauses only for live blockers and resumes only without them (every opening/closing of a watch is judged), operators with non-default "
-           "lifetimes against records that state none, a failing keep-alive around a slow graceful exit (the record stays withdrawn), lifetimes of a day and more.",
-    'C14': "Also: permanently failing handlers, explicit deleted=False, lingering deletions, slow resume handlers with re-listings during their run.",
+           "lifetimes against records that state none, a failing keep-alive around a slow graceful exit (the record stays withdrawn), lifetimes of a day and more. A keep-alive renewal failing for good (the operator has to go down); foreign records with UTC offsets.",
+    'C14': "Also: permanently failing handlers, explicit deleted=False, lingering deletions, slow resume handlers with re-listings during their run. Objects with an empty essence.",
     'C15': "Also: two-key label/annotation criteria (every ordered pair of criterion kinds x key states x handler family, selection and prematch) and one "
-           "function stacked twice under one id with different criteria.",
+           "function stacked twice under one id with different criteria. Field criteria on a status field through falsy values in the closed loop; 70 resource-selector spellings against 7 resources.",
     'C16': "Also: empty and odd essences, look-alike user annotations, and after every operation: the essence contains no own record and all user data.",
-    'C17': "Also: empty-mapping results, a handled kind without an index next to an indexed one (both visiting orders), same-named objects of two kinds.",
-    'C18': "Also: number<->boolean swaps, other spellings of the DELETE opt-in, strict standard-alphabet base64 decoding of the returned patch, one transformation function requested twice.",
+    'C17': "Also: empty-mapping results, a handled kind without an index next to an indexed one (both visiting orders), same-named objects of two kinds. Equal values from different objects; the index under test without a sibling index.",
+    'C18': "Also: number<->boolean swaps, other spellings of the DELETE opt-in, strict standard-alphabet base64 decoding of the returned patch, one transformation function requested twice. Field criteria of admission handlers (the reviewed object decides); mutating handlers on DELETE reviews.",
     'C19': "Also: resource versions that gain a digit, namespaced mandatory peering against namespace removal, a cluster-scoped kind, and group (c): the "
            "whole operator (namespaces=['n*'], by-name and by-category handlers) while CRDs, versions, categories and namespaces come and go in the fake "
-           "cluster - through the real observation and orchestration code.",
+           "cluster - through the real observation and orchestration code. Unknown ERROR events in the stream of any served pair (peering included) must surface; list/watch requests throttled (429) beyond the client's retries; a watch that returns silently.",
     'C20': "Also: more objects than workers at the stop (nothing is worked off afterwards), synchronous (threaded) startup handlers with the stop before, "
-           "during and after their run (threads emulated as uncancellable futures with a declared virtual duration), daemons without a cancellation timeout under failures of essential tasks.",
+           "during and after their run (threads emulated as uncancellable futures with a declared virtual duration), daemons without a cancellation timeout under failures of essential tasks. The daemon's object deleted shortly before the stop / cancellation / failure.",
 }
 
 
